@@ -192,6 +192,18 @@ func (res *CampaignResult) Finish(c *core.Ctx, level string, cov map[string]any,
 	cov["cases"] = res.Cases
 	cov["distinct_schedules"] = len(res.Scheds)
 	cov["counters"] = res.Tags.Map()
+	if _, ok := cov["faults_fired"]; !ok {
+		ff := map[string]int{}
+		for k, v := range res.Tags.Map() {
+			for _, pre := range []string{"fault:", "stage-fault-fired:", "http-fired:", "init-on:", "tree:dirty", "avail:", "probe:unmatched-call", "probe:task-blocked-on-lock", "probe:preempted", "probe:existing_path_refused"} {
+				if strings.HasPrefix(k, pre) {
+					ff[k] = v
+				}
+			}
+		}
+		cov["faults_fired"] = ff
+	}
+	cov["seed_note"] = "every choice of this run derives from the one seed in the top-level 'seed' field (VERIF_SEED, or the fixed per-(property, tier) default)"
 	cov["known_findings_seen"] = res.KnownSeen.Map()
 	cov["unreproduced"] = res.Unrepro
 	cov["discarded"] = res.Discarded
